@@ -83,13 +83,28 @@ def _ew(f, defined=None):
 def _ew2(f):
     def h(x, y, *a, **k):
         k.pop("dtype", None)
-        if k.get("out") is not None or a:
+        out = k.pop("out", None)
+        if a:
             # (a third positional argument of a binary ufunc is its `out` array)
-            raise Unsupported("out argument of a binary elementwise function")
+            raise Unsupported("positional out argument of a binary elementwise function")
+        if out is not None:
+            # numpy computes the result from the operands as they are, writes it into `out` and returns `out` (the same array object)
+            r = h(x, y, **k)
+            if isinstance(out, (A, EA)):
+                out[...] = r
+                return out
+            raise Unsupported("out= argument of type %s" % type(out).__name__)
         if isinstance(x, EA) or isinstance(y, EA):
-            xa = x.a if isinstance(x, EA) else x
-            ya = y.a if isinstance(y, EA) else y
-            return EA(np.frompyfunc(lambda p, q: S(f(lift(p), lift(q))), 2, 1)(xa, ya))
+            def box(v):
+                if isinstance(v, EA):
+                    return v.a
+                if isinstance(v, S):  # a symbolic scalar operand: one 0-d object cell (numpy must not look inside it)
+                    c = np.empty((), dtype=object)
+                    c[()] = v
+                    return c
+                return v
+
+            return EA(np.frompyfunc(lambda p, q: S(f(lift(p), lift(q))), 2, 1)(box(x), box(y)))
         if isinstance(x, A):
             return x._bin(y, f)
         if isinstance(y, A):
